@@ -17,7 +17,7 @@ func SubscriptionManager.cleanupClientWithoutLocking$1
   opt assume-no-overflow
   requires s != nil && *s != nil && (*s).topics != nil && (*s).topics.m != nil && (*s).topics.opts != nil && unlocked((*s).topics.mutex)
   requires subscribedTopics != nil && *subscribedTopics != nil && (*subscribedTopics).m != nil && (*subscribedTopics).opts != nil && unlocked((*subscribedTopics).mutex) && *subscribedTopics != (*s).topics && (*subscribedTopics).m != (*s).topics.m
-  requires removedTopics != nil && unsubscribedTopics != nil && count >= 0
+  requires removedTopics != nil && unsubscribedTopics != nil
   modifies *removedTopics, *unsubscribedTopics, allelems(string), (*s).topics.m, (*s).topics.deletedKeys, (*subscribedTopics).m, (*subscribedTopics).deletedKeys, allmaps((*s).topics.m)
   loop 1 invariant (*s).topics == old((*s).topics) && (*s).topics.m != nil && *subscribedTopics == old(*subscribedTopics) && (*subscribedTopics).m != nil && (*subscribedTopics).opts != nil && unlocked((*subscribedTopics).mutex) && (*subscribedTopics).m != (*s).topics.m
   loop 1 invariant forall k Str :: (has((*s).topics.m, k) <==> (k == topic ? old(has((*s).topics.m, topic)) && old((*s).topics.m[topic]) - count > 0 : old(has((*s).topics.m, k))))
@@ -48,10 +48,17 @@ func SubscriptionManager.Subscribe
 -- called in a state in which the global counters INCLUDE the client's counts (which the sum form of the invariant -
 -- topics[t] = sum over the clients of their count of t - implies); otherwise it takes away what other clients hold.
 -- (assumed contract: of the function itself only this precondition and the closure above are under contract)
-assume-func github.com/iotaledger/hive.go/web/subscriptionmanager.SubscriptionManager.cleanupClientWithoutLocking(s, clientID) (r0, r1, r2)
-  requires s != nil && s.subscribers != nil && s.topics != nil
-  requires has(s.subscribers.m, clientID) ==> (forall k T :: has(s.subscribers.m[clientID].m, k) ==> has(s.topics.m, k) && s.topics.m[k] >= s.subscribers.m[clientID].m[k])
-  modifies shrinkingmap.ShrinkingMap.m, shrinkingmap.ShrinkingMap.deletedKeys, allmaps(s.topics.m)
+func SubscriptionManager.cleanupClientWithoutLocking
+  instantiate C: string
+  instantiate T: string
+  opt sequential
+  requires s != nil && s.subscribers != nil && s.subscribers.m != nil && s.subscribers.opts != nil && unlocked(s.subscribers.mutex) && s.topics != nil && s.topics.m != nil && s.topics.opts != nil && unlocked(s.topics.mutex) && s.topics.m != s.subscribers.m
+  requires has(s.subscribers.m, clientID) ==> s.subscribers.m[clientID] != nil && s.subscribers.m[clientID].m != nil && s.subscribers.m[clientID].opts != nil && unlocked(s.subscribers.m[clientID].mutex) && s.subscribers.m[clientID] != s.topics && s.subscribers.m[clientID].m != s.topics.m && s.subscribers.m[clientID].m != s.subscribers.m
+  requires has(s.subscribers.m, clientID) ==> (forall k Str :: has(s.subscribers.m[clientID].m, k) ==> has(s.topics.m, k) && s.topics.m[k] >= s.subscribers.m[clientID].m[k])
+  modifies shrinkingmap.ShrinkingMap.m, shrinkingmap.ShrinkingMap.deletedKeys, allmaps(s.topics.m), allelems(string)
+  -- the client is gone afterwards, and the result says whether it was there
+  ensures r0 <==> old(has(s.subscribers.m, clientID))
+  ensures !has(s.subscribers.m, clientID)
 
 -- Unsubscribe (its locked part): one subscription of the client to the topic goes away - the client's own counter and the
 -- topic's global counter both go down by one, each entry disappearing when nothing is left (by ITS OWN count: the global
@@ -88,7 +95,7 @@ func SubscriptionManager.Subscribe$1
   instantiate T: string
   opt sequential
   opt assume-no-overflow
-  requires s != nil && *s != nil && (*s).subscribers != nil && (*s).subscribers.m != nil && unlocked((*s).subscribers.mutex) && (*s).topics != nil && (*s).topics.m != nil && (*s).topics.opts != nil && unlocked((*s).topics.mutex)
+  requires s != nil && *s != nil && (*s).subscribers != nil && (*s).subscribers.m != nil && (*s).subscribers.opts != nil && unlocked((*s).subscribers.mutex) && (*s).topics != nil && (*s).topics.m != nil && (*s).topics.opts != nil && unlocked((*s).topics.mutex)
   requires clientID != nil && topic != nil && topicAdded != nil && clientDropped != nil && clientConnected != nil && removedTopics != nil && unsubscribedTopics != nil && !*topicAdded && !*clientDropped && !*clientConnected && topicAdded != clientDropped && topicAdded != clientConnected && clientDropped != clientConnected
   requires has((*s).subscribers.m, *clientID) ==> (*s).subscribers.m[*clientID] != nil && (*s).subscribers.m[*clientID].m != nil && (*s).subscribers.m[*clientID].opts != nil && unlocked((*s).subscribers.m[*clientID].mutex) && (*s).subscribers.m[*clientID] != (*s).topics && (*s).subscribers.m[*clientID].m != (*s).topics.m && (*s).subscribers.m[*clientID].m != (*s).subscribers.m
   requires (*s).topics.m != (*s).subscribers.m      -- (maps of different Go types)
